@@ -22,6 +22,8 @@ class BoundExceeded(Exception):
 class Infeasible(Exception):
     pass
 
+QUERY_CACHE = {}
+
 # ------------------------------------------------------------------ callee parsing
 class Callee:
     __slots__ = ('text', 'selfty', 'head', 'trait', 'method', 'generic_self', 'path')
@@ -336,6 +338,10 @@ class Ctx:
         self.pending = []
         self.solver = z3.Solver()
         self.solver.set('timeout', timeout_ms)
+        self.timeout_ms = timeout_ms
+        self.fresh_mode = False
+        self.pc_keys = []
+        self.cache_hits = 0
         self.pc = []
         self.queries = 0
         self.solver_s = 0.0
@@ -373,21 +379,57 @@ class Ctx:
         self.pc.append(cond)
         self.solver.add(cond)
 
+    def query_key(self, extra):
+        """structural key of (path condition, extra): identical queries are answered once per worker process"""
+        while len(self.pc_keys) < len(self.pc):
+            self.pc_keys.append(self.pc[len(self.pc_keys)].sexpr())
+        del self.pc_keys[len(self.pc):]
+        return (frozenset(self.pc_keys), extra.sexpr() if extra is not None else None)
+
+    def fresh_solver(self, extra=None):
+        sv = z3.SolverFor('QF_BV')
+        sv.set('timeout', self.timeout_ms)
+        sv.add(*self.pc)
+        if extra is not None:
+            sv.add(extra)
+        return sv
+
     def check(self, extra=None):
         t0 = time.time()
         self.queries += 1
-        if extra is not None:
-            self.solver.push()
-            self.solver.add(extra)
-        r = self.solver.check()
-        if extra is not None:
-            self.solver.pop()
+        if self.fresh_mode:
+            key = self.query_key(extra)
+            r = QUERY_CACHE.get(key)
+            if r is None:
+                r = self.fresh_solver(extra).check()
+                if len(QUERY_CACHE) < 2_000_000:
+                    QUERY_CACHE[key] = r
+            else:
+                self.cache_hits += 1
+        else:
+            if extra is not None:
+                self.solver.push()
+                self.solver.add(extra)
+            r = self.solver.check()
+            if extra is not None:
+                self.solver.pop()
         self.solver_s += time.time() - t0
         if r == z3.unknown:
             raise Unsupported('z3 unknown/timeout')
         return r == z3.sat
 
     def model(self, extra=None):
+        if self.fresh_mode:
+            fs = self.fresh_solver(extra)
+            self.queries += 1
+            if fs.check() != z3.sat:
+                return None
+            md = fs.model()
+            m = {}
+            for name, v in self.syms.items():
+                val = md.eval(v, model_completion=True)
+                m[name] = val.as_long() if z3.is_bv_value(val) else z3.is_true(val)
+            return m
         if extra is not None:
             self.solver.push(); self.solver.add(extra)
         r = self.solver.check()
@@ -482,6 +524,7 @@ class Ctx:
                     work.extend(self.pending)
                     self.solver.pop()
                     del self.pc[saved[4]:]
+                    del self.pc_keys[saved[4]:]
                 self.local_branches += 1
         finally:
             self.prefix, self.pos, self.trace, self.pending = saved[0], saved[1], saved[2], saved[3]
@@ -502,6 +545,30 @@ class Ctx:
         neg = z3.Not(f)
         self.smt_obligations += 1
         t0 = time.time()
+        if self.fresh_mode:
+            key = self.query_key(neg)
+            r = QUERY_CACHE.get(key)
+            self.queries += 1
+            if r == z3.unsat:
+                self.cache_hits += 1
+                self.solver_s += time.time() - t0
+                return True
+            fs = self.fresh_solver(neg)
+            r = fs.check()
+            if len(QUERY_CACHE) < 2_000_000:
+                QUERY_CACHE[key] = r
+            self.solver_s += time.time() - t0
+            if r == z3.unknown:
+                raise Unsupported('z3 unknown on law ' + name)
+            if r == z3.sat:
+                md = fs.model()
+                m = {}
+                for nm, v in self.syms.items():
+                    val = md.eval(v, model_completion=True)
+                    m[nm] = val.as_long() if z3.is_bv_value(val) else z3.is_true(val)
+                self.violations.append({'law': name, 'model': m, 'info': info})
+                return False
+            return True
         self.solver.push(); self.solver.add(neg)
         r = self.solver.check()
         self.queries += 1
